@@ -24,9 +24,10 @@ CHECKS = {
          "generated program; a witness checker proved sound w.r.t. Sub validates every accepted case (all groundings "
          "of unresolved variables from a finite pool, resolved constraints, bounded variables); C03_core_sound proves "
          "the statement unconditionally (every satisfying grounding, satisfiability, boundedness) for constraint-free "
-         "schemas and C03_sub_sound extends it to schemas with subtype constraints x <= A / x < A including 'every "
-         "resolved constraint holds' (attachment invariant through bind's set merging); for schemas with elimination "
-         "constraints the proof is per-instance (verified checker) - partial",
+         "schemas and C03_sub_sound extends it to schemas with subtype constraints x <= A / x < A and C03_elim_sound to elimination constraints over base-type alternatives, "
+         "including 'every resolved constraint holds' (attachment invariant through bind's set merging, re-check rounds "
+         "nested through fulfill -> below -> check_constraints); elimination alternatives that are compound or mention "
+         "variables remain per-instance (verified checker) - partial",
          "4 C03", "Coq-verified per-instance checker + engine model correspondence (universal soundness partial)"),
  "C05": ("on the faithful engine model: lub / permutation invariance / monotonicity proved for every hierarchy and "
          "any number of chain arguments (identity and nested covariant contexts, Top/Bottom included), glb for the "
@@ -56,6 +57,7 @@ CHECKS = {
  "C10": ("expand_canon as a worklist closure (any stack order) and the repaired Language.successors modelled: canon = "
          "least closed set containing every allowed subtype of the listed types, links sound, mirrored, reachability "
          "= strict subtype among canonical types, transitive listings and subClassOf triples (and closure) exact; "
+         "expand_canon proved to terminate within an explicit fuel bound over a finite universe (C10_total); "
          "pinned algorithm refuted; run against Language.canon/subtypes/supertypes/add_taxonomy/add_vocabulary",
          "4 C10", "Coq proof (worklist closure, chain lemma) + correspondence + order oracle"),
  "C09": ("add_from model: depends = transitive closure of from after every call list (any order, cycles, both "
